@@ -16,12 +16,14 @@ from lsst.daf.relation import (
     MarkerRelation,
     Materialization,
     Processor,
+    Reordering,
+    RowFilter,
     Transfer,
     UnaryOperationRelation,
     iteration,
     sql,
 )
-from lsst.daf.relation.iteration import RowIterable, RowMapping, RowSequence
+from lsst.daf.relation.iteration import MaterializedRowIterable, RowIterable, RowMapping, RowSequence
 
 from .exprs import UDFS
 from .tags import make_tags
@@ -114,6 +116,14 @@ class SimRows(RowIterable):
             self.closed += 1
 
 
+class SimMatRows(SimRows, MaterializedRowIterable):
+    """Instrumented *sized, in-memory* user payload (MaterializedRowIterable is the documented base for those):
+    `materialized()` is itself, `len()` does not iterate, everything else is inherited lazy behaviour."""
+
+    def __len__(self):
+        return len(self.rows)
+
+
 class StreamRows(RowIterable):
     """Streaming result of a sql->iteration transfer: re-executes the query on
     every iteration and can fail per row."""
@@ -146,6 +156,115 @@ class SimMarker(MarkerRelation):
 
     def __str__(self) -> str:
         return f"mark({self.target})"
+
+
+# ------------------------------------------------------------------ user-defined unary operations
+# RowFilter and Reordering are the library's documented extension points for unary operations.  The three below have
+# flags that leave no room for interpretation: a count-dependent filter, a positional filter that (like Slice) is both
+# order- and count-dependent (or, where no commutation is exercised, order-dependent only), and a stable one-column
+# reordering.  Only the simulated iteration engines support them.
+@_dc.dataclass(frozen=True)
+class SimAtLeast(RowFilter):
+    """All rows if there are at least n of them, else none."""
+
+    n: int
+
+    def __str__(self) -> str:
+        return f"atleast({self.n})"
+
+    @property
+    def is_empty_invariant(self) -> bool:
+        return False
+
+    @property
+    def is_order_dependent(self) -> bool:
+        return False
+
+    @property
+    def is_count_dependent(self) -> bool:
+        return True
+
+    def is_supported_by(self, engine) -> bool:
+        return isinstance(engine, SimItEngine)
+
+
+@_dc.dataclass(frozen=True)
+class SimStride(RowFilter):
+    """Rows 0, k, 2k, ... of the target."""
+
+    k: int
+    count_dep: bool = True
+
+    def __str__(self) -> str:
+        return f"stride({self.k})"
+
+    @property
+    def is_empty_invariant(self) -> bool:
+        return True
+
+    @property
+    def is_order_dependent(self) -> bool:
+        return True
+
+    @property
+    def is_count_dependent(self) -> bool:
+        return self.count_dep
+
+    def is_supported_by(self, engine) -> bool:
+        return isinstance(engine, SimItEngine)
+
+
+@_dc.dataclass(frozen=True)
+class SimOrderBy(Reordering):
+    """Stable sort by one integer column."""
+
+    tag: object
+    descending: bool = False
+
+    def __str__(self) -> str:
+        return f"orderby({'-' if self.descending else ''}{self.tag})"
+
+    @property
+    def columns_required(self):
+        return frozenset({self.tag})
+
+    def is_supported_by(self, engine) -> bool:
+        return isinstance(engine, SimItEngine)
+
+
+class _CustomRows(RowIterable):
+    """Lazy result of a user-defined operation: nothing upstream is touched before iteration."""
+
+    def __init__(self, operation, target_rows):
+        self.operation = operation
+        self.target_rows = target_rows
+
+    def __iter__(self):
+        op = self.operation
+        if isinstance(op, SimStride):
+            for i, row in enumerate(self.target_rows):
+                if i % op.k == 0:
+                    yield row
+        elif isinstance(op, SimAtLeast):
+            rows = list(self.target_rows)
+            if len(rows) >= op.n:
+                yield from rows
+        elif isinstance(op, SimOrderBy):
+            rows = list(self.target_rows)
+            rows.sort(key=lambda r: r[op.tag], reverse=op.descending)
+            yield from rows
+        else:  # pragma: no cover
+            raise TypeError(op)
+
+
+@_dc.dataclass(repr=False, eq=False, kw_only=True)
+class SimItEngine(iteration.Engine):
+    """iteration.Engine with the documented hook for user-defined unary operations implemented."""
+
+    def apply_custom_unary_operation(self, operation, target):
+        if isinstance(operation, (SimAtLeast, SimStride, SimOrderBy)):
+            return _CustomRows(operation, self.execute(target))
+        return super().apply_custom_unary_operation(operation, target)
 
 
 class SimProcessor(Processor):
@@ -210,8 +329,8 @@ class World:
         self.sqllog = []
         # engines
         self.sql = sql.Engine(name="sql")
-        self.it = iteration.Engine(name="it")
-        self.it2 = iteration.Engine(name="it2")
+        self.it = SimItEngine(name="it")
+        self.it2 = SimItEngine(name="it2")
         self.engines = {"sql": self.sql, "it": self.it, "it2": self.it2}
         for eng in (self.it, self.it2):
             for fname in UDFS:
@@ -355,6 +474,8 @@ class World:
                 # RowMapping requires unique keys: fall back to a sequence otherwise
                 keyed = {tuple(r[t] for t in tags): r for r in trows}
                 payload = RowMapping(tuple(tags), keyed) if len(keyed) == len(trows) else RowSequence(trows)
+            elif payload_kind == "simmat":
+                payload = SimMatRows(self, lid, trows)
             else:
                 payload = SimRows(self, lid, trows)
             if variant == "exact" and payload_kind in ("seq", "map"):
